@@ -53,6 +53,15 @@ struct Witness {
     /// files visible to the in-memory file reader: path -> content
     #[serde(default)]
     files: std::collections::HashMap<String, String>,
+    /// real file system mode: `files` (relative paths) are written under a fresh temporary directory, `symlinks` (link -> target,
+    /// both relative to it) are created, `cwd_files` are written into a second temporary directory which becomes the working
+    /// directory; `file_name` is taken relative to the first directory and the repository's DefaultFileReader is used
+    #[serde(default)]
+    real_fs: bool,
+    #[serde(default)]
+    symlinks: std::collections::HashMap<String, String>,
+    #[serde(default)]
+    cwd_files: std::collections::HashMap<String, String>,
     /// the original (pre-transpilation) map, as JSON text, for the composition check (also reference it from `source`)
     #[serde(default)]
     original_map: Option<String>,
@@ -115,6 +124,8 @@ fn pos_of(text: &str, needle: &str, nth: usize) -> Option<(u32, u32)> {
 
 /// run replay/exec_oracle.js (node) on the original source and the rewritten code; returns its one-line verdict
 fn exec_oracle(mode: &str, original: &str, rewritten: &str, driver: &str) -> String {
+    // a not-modified result carries no code: the package hands the caller's source back
+    let rewritten = if rewritten.trim().is_empty() { original } else { rewritten };
     let dir = std::env::temp_dir().join(format!("verif_exec_{}", std::process::id()));
     let _ = std::fs::create_dir_all(&dir);
     let of = dir.join("original.js");
@@ -236,12 +247,44 @@ fn main() {
     };
     let reader = MemReader { files: w.files.clone() };
     let src = w.source.clone();
-    let fname = w.file_name.clone();
+    let mut fname = w.file_name.clone();
+    let mut real_dirs: Vec<std::path::PathBuf> = Vec::new();
+    if w.real_fs {
+        let base = std::env::temp_dir().join(format!("verif_fs_{}", std::process::id()));
+        let root = base.join("root");
+        let cwd = base.join("cwd");
+        std::fs::create_dir_all(&root).expect("mkdir");
+        std::fs::create_dir_all(&cwd).expect("mkdir");
+        for (p, c) in &w.files {
+            let f = root.join(p);
+            if let Some(d) = f.parent() { let _ = std::fs::create_dir_all(d); }
+            std::fs::write(&f, c).expect("write file");
+        }
+        for (l, t) in &w.symlinks {
+            let lf = root.join(l);
+            if let Some(d) = lf.parent() { let _ = std::fs::create_dir_all(d); }
+            #[cfg(unix)]
+            std::os::unix::fs::symlink(root.join(t), &lf).expect("symlink");
+        }
+        for (p, c) in &w.cwd_files {
+            let f = cwd.join(p);
+            if let Some(d) = f.parent() { let _ = std::fs::create_dir_all(d); }
+            std::fs::write(&f, c).expect("write cwd file");
+        }
+        std::env::set_current_dir(&cwd).expect("chdir");
+        fname = root.join(&w.file_name).to_string_lossy().to_string();
+        real_dirs.push(base);
+    }
 
     let prev = std::panic::take_hook();
     std::panic::set_hook(Box::new(|_| {}));
     let result = std::panic::catch_unwind(std::panic::AssertUnwindSafe(|| {
-        rewriter::rewrite_js(src, &fname, &config, &reader).map(|o| {
+        let rewritten = if w.real_fs {
+            rewriter::rewrite_js(src, &fname, &config, &util::DefaultFileReader {})
+        } else {
+            rewriter::rewrite_js(src, &fname, &config, &reader)
+        };
+        rewritten.map(|o| {
             let content = rewriter::print_js(&o.code, &o.source_map, &o.original_source_map, &config).into_owned();
             (o, content)
         })
@@ -406,6 +449,39 @@ fn main() {
                     println!("--- map positions outside the input: {:?}", outside);
                     outside.is_some() == v.as_bool().unwrap()
                 }
+                // every occurrence of the listed identifiers in the generated code has a mapping exactly at its position, and that
+                // mapping points at an occurrence of the same identifier in the input
+                "identifiers_not_exactly_mapped" => {
+                    let names: Vec<String> = v.as_array().unwrap().iter().map(|x| x.as_str().unwrap().to_string()).collect();
+                    let mut bad = None;
+                    if let Some(map) = trailer_map(&content) {
+                        let in_lines: Vec<Vec<u16>> = w.source.split('\n').map(|l| l.encode_utf16().collect()).collect();
+                        let is_part = |c: u16| c < 128 && ((c as u8 as char).is_ascii_alphanumeric() || c == b'_' as u16 || c == b'$' as u16);
+                        let body_end = content.rfind("//# sourceMappingURL=").unwrap_or(content.len());
+                        for (li, line) in content[..body_end].split('\n').enumerate() {
+                            let u: Vec<u16> = line.encode_utf16().collect();
+                            for name in &names {
+                                let n: Vec<u16> = name.encode_utf16().collect();
+                                let mut c = 0;
+                                while c + n.len() <= u.len() {
+                                    if u[c..c + n.len()] == n[..] && (c == 0 || !is_part(u[c - 1])) && (c + n.len() == u.len() || !is_part(u[c + n.len()])) && !(c > 0 && u[c - 1] == b'.' as u16) {
+                                        let ok = match map.lookup_token(li as u32, c as u32) {
+                                            Some(t) => t.get_dst_line() == li as u32 && t.get_dst_col() == c as u32 && t.has_source() && {
+                                                let (sl, sc) = (t.get_src_line() as usize, t.get_src_col() as usize);
+                                                in_lines.get(sl).map(|l| sc + n.len() <= l.len() && l[sc..sc + n.len()] == n[..]).unwrap_or(false)
+                                            },
+                                            None => false,
+                                        };
+                                        if !ok && bad.is_none() { bad = Some(format!("`{}` at generated {}:{}", name, li, c)); }
+                                        c += n.len();
+                                    } else { c += 1; }
+                                }
+                            }
+                        }
+                    } else { bad = Some("no map".to_string()); }
+                    println!("--- copied identifier without an exact mapping: {:?}", bad);
+                    bad.is_some()
+                }
                 "hook_call_mapped_outside_statement" => {
                     let (_, _, stray) = map_position_checks(&content, &w.source);
                     println!("--- hook call mapped outside its statement: {:?}", stray);
@@ -509,6 +585,15 @@ fn main() {
                     let a = v.as_array().unwrap();
                     literals.iter().filter(|l| l.0 == a[0].as_str().unwrap()).count() as i64 != a[1].as_i64().unwrap()
                 }
+                // [value, ident-or-null]: the value is reported but no occurrence carries that variable / property name
+                "literal_ident_ne" => {
+                    let a = v.as_array().unwrap();
+                    let val = a[0].as_str().unwrap();
+                    let want: Option<String> = a[1].as_str().map(|x| x.to_string());
+                    literals.iter().any(|l| l.0 == val) && !literals.iter().any(|l| l.0 == val && l.3 == want)
+                }
+                // the report is present although collection is disabled / absent although enabled
+                "literals_report_present" => literals_present == v.as_bool().unwrap(),
                 "literal_at_not" => {
                     let a = v.as_array().unwrap();
                     let (val, line, col) = (a[0].as_str().unwrap(), a[1].as_u64().unwrap() as usize, a[2].as_u64().unwrap() as usize);
@@ -578,5 +663,6 @@ fn main() {
         println!("--- only-panics mode: panicked={panicked}");
         all = panicked;
     }
+    for d in &real_dirs { let _ = std::env::set_current_dir(std::env::temp_dir()); let _ = std::fs::remove_dir_all(d); }
     println!("{}", if all { "REPRODUCED" } else { "NOT-REPRODUCED" });
 }
